@@ -12,7 +12,7 @@
     of the minimisation find a negative minimum whenever one exists, and that the minimisation converges. *)
 From Coq Require Import Reals List ZArith QArith.
 From Coquelicot Require Import Coquelicot.
-From FeosVerif Require Import TpdC07 TpdDerivC07.
+From FeosVerif Require Import TpdC07 TpdDerivC07 FlashCascadeC07.
 Import ListNotations.
 
 (** at a fixed point of  W_i <- exp (d_i - P_i)  the objective is  1 - sum W  (`tpd = 1.0 - y.sum()`) *)
@@ -132,3 +132,29 @@ Theorem C07_hess_code_vs_true : forall (phi : nat -> (nat -> R) -> R) (d : nat -
   hess_code phi d dphi W 1 i j = (hess_true phi d dphi W i j + (if Nat.eqb i j then g phi d W j / 2 else 0))%R.
 Proof. exact hess_code_vs_true. Qed.
 Print Assumptions C07_hess_code_vs_true.
+
+(** start cascade of [tp_flash]: a failed attempt from a given initial state falls back to the stability-analysis start ... *)
+Theorem C07_cascade_failed_guess_falls_back : forall (e : err) (st : stab_in),
+  snd (cascade (GAttempt (AErr e)) st) = snd (cascade GNone st)
+  /\ fst (cascade (GAttempt (AErr e)) st) = SGuess :: fst (cascade GNone st).
+Proof. exact cascade_failed_guess_falls_back. Qed.
+Print Assumptions C07_cascade_failed_guess_falls_back.
+
+(** ... so an initial state can only help *)
+Theorem C07_cascade_guess_only_helps : forall (a : attempt) (st : stab_in),
+  is_ok (snd (cascade GNone st)) = true -> is_ok (snd (cascade (GAttempt a) st)) = true.
+Proof. exact cascade_guess_only_helps. Qed.
+Print Assumptions C07_cascade_guess_only_helps.
+
+(** "a phase split rather than a no-phase-split error": NoPhaseSplit only when the stability analysis delivered no candidate *)
+Theorem C07_no_phase_split_only_from_stability : forall (g : guess_in) (st : stab_in),
+  attempts_not_nps g st -> snd (cascade g st) = inr no_phase_split ->
+  st = StErr no_phase_split \/ g = GUpdateFailed no_phase_split.
+Proof. exact no_phase_split_only_from_stability. Qed.
+Print Assumptions C07_no_phase_split_only_from_stability.
+
+Theorem C07_unstable_feed_never_no_phase_split : forall (g : guess_in) (st : stab_in),
+  attempts_not_nps g st -> (forall e, st <> StErr e) -> (forall e, g <> GUpdateFailed e) ->
+  snd (cascade g st) <> inr no_phase_split.
+Proof. exact unstable_feed_never_no_phase_split. Qed.
+Print Assumptions C07_unstable_feed_never_no_phase_split.
